@@ -9,6 +9,20 @@ Shares the stub calculator, the generators and the mpmath free-energy oracle wit
 * ORACLE  dP_ph/dT = -d2F_ph/dTdV by mpmath numerical differentiation (40 digits) of the free energy of an analytic
           spectrum, CODATA constants of its own; the claimed gap with the *supplied* random positive C_V; sign on the
           diagonal; exact zero in T = 0 rows; exact equality adiabatic == isothermal for every key with a Voigt index 4-6.
+
+Glue of `cij/core/qha_adapter.py` / `cij/util/units.py` (translated by tools/gens/qha_src.py; theorems `c02_glue_is_source_*`):
+
+* MODEL   driver ops `c02.volcheck` (translated `read_input` on a list of volumes), `c02.chain` (object graph: which attribute of the
+          qha calculator a chain of reads on the adapter returns), `c02.helpers` (unit monomials of every `_to_*`/`_from_*`),
+          `c02.convert` (translated `convert_unit`), `c02.unitdims` (dimension table) — each compared with the real code / pint;
+* ORACLE  (value-level, only what the statement uses) the real adapter built on a synthetic data set against the qha package run
+          directly (own settings merge; DT_SAMPLE = 2 DT so that sample and full temperature grids differ): `v_array`, `t_array` (adapter
+          and volume interface), `volume_base.heat_capacity`, `ntv`; `Calculator.v_array` / `.t_array` (through `__getattr__`) against
+          the same; `_to_gpa` / `_from_gpa` (value form incl. 0.0 and arrays) against CODATA numbers typed in below at 1e-9.
+* CORRESPONDENCE-ONLY (a difference exits 1 as a broken tie, not as a failing input of C02): the other seven unit helpers against
+          the typed CODATA table; sample temperatures, pressures, free energy, pressure grid of the adapter against qha; identity of
+          `volume_base` / `pressure_base` and of the handed arrays across reads, one shared qha calculator, `v2p()` empty;
+          qha's unit twins (`p_tv_gpa`/`p_tv_au`, `_ang3`/`_bohr3`, `f_tv_ev`/`f_tv_ry`) as a contract of the external package.
 """
 from __future__ import annotations
 
@@ -18,7 +32,7 @@ from typing import Any, Dict, List
 import numpy
 
 from harness import c01
-from harness.common import Ctx, Result, Disagreement, OracleFailure, family_close
+from harness.common import Ctx, Result, Disagreement, OracleFailure, family_close, enc, dec
 
 ASSUMPTIONS = c01.ASSUMPTIONS + [
     "C_V is an arbitrary positive field supplied by the QHA layer (generated: 3 N k_B x U(0.2, 3)); the relation of qha's "
@@ -121,6 +135,7 @@ def adapter_oracle(files) -> List[dict]:
     fails: List[dict] = []
     run = tvdata.Run(files)
     if run.error is not None:
+        REFUSED.append(type(run.error).__name__)
         return fails                                   # a data set the Calculator refuses is C05/C12's subject
     calc = run.calc
     ref = c05.reference_from_files(files)
@@ -132,6 +147,22 @@ def adapter_oracle(files) -> List[dict]:
         keys = {tuple(k.v): k for k in calc.modulus_keys}
         gaps = {kv: numpy.array(calc.modulus_adiabatic[k]) - numpy.array(calc.modulus_isothermal[k]) for kv, k in keys.items()}
         ax_used = numpy.array(calc._full_modulus.get_axial_strains(), dtype=float)
+    # `Calculator.v_array` / `.t_array` do not exist on the class: `__getattr__` hands them to the adapter, which returns the qha
+    # calculator's own arrays — the grid of the fields above
+    with tvdata.quiet():
+        qc = calc.qha_calculator.calculator
+        for nm, attr in (("v_array", "finer_volumes_bohr3"), ("t_array", "temperature_array")):
+            try:
+                got = getattr(calc, nm)
+                if numpy.shape(got) != qd[nm].shape or not numpy.array_equal(numpy.asarray(got), qd[nm]):
+                    fails.append({"check": "delegated_" + nm, "key": None, "observed": numpy.ravel(numpy.asarray(got))[:4].tolist(),
+                                  "expected": numpy.ravel(qd[nm])[:4].tolist()})
+                elif got is not getattr(qc, attr):
+                    fails.append({"check": "delegated_" + nm, "key": None, "identity": True, "observed": "an equal copy", "expected": "the qha calculator's own array"})
+            except Exception as e:
+                fails.append({"check": "delegated_" + nm, "key": None, "observed": type(e).__name__, "expected": numpy.ravel(qd[nm])[:4].tolist()})
+        if calc.qha_calculator.volume_base.heat_capacity is not qc.cv_tv_au:
+            fails.append({"check": "heat_capacity_identity", "key": None, "identity": True, "observed": "another object", "expected": "qha calculator's cv_tv_au"})
     if cv_handed.shape != qd["cv_tv_au"].shape or not family_close(cv_handed, qd["cv_tv_au"], rtol=1e-10)[0]:
         fails.append({"check": "heat_capacity", "key": None, "observed": cv_handed[min(1, len(cv_handed) - 1), :4].tolist(),
                       "expected": qd["cv_tv_au"][min(1, len(cv_handed) - 1), :4].tolist()})
@@ -179,29 +210,510 @@ def adapter_oracle(files) -> List[dict]:
     return fails
 
 
+REFUSED: List[str] = []
+
+
 def adapter_cases(ctx: Ctx, res: Result, n: int):
     from harness import tvdata
     from harness.common import make_rng
     done = 0
+    del REFUSED[:]
     for i in range(n):
         rng = make_rng(ctx.seed, f"C02/adapter/{i}")
         ds, desc = tvdata.draw_case(rng, small=True, force={"NT": int(rng.integers(2, 5))})
         files = tvdata.case_files(ds)
-        fs = adapter_oracle(files)
+        fs_all = adapter_oracle(files)
         done += 1
         res.evaluations += 1
+        for f in [f for f in fs_all if f.get("identity")][:3]:
+            res.disagreements.append(Disagreement(op="c02.chain", input={"check": f["check"], "desc": jsonable_desc(desc)}, impl=f["observed"], model=f["expected"],
+                                                  note="Calculator.__getattr__ -> adapter -> the qha calculator's own object (translated object graph)"))
+        fs = [f for f in fs_all if not f.get("identity")]
         for f in fs[:3]:
             res.oracle_failures.append(OracleFailure(
                 what=f"end to end: {f['check']} of c{f['key']} differs from T V (dP/dT)^2/(9 e_i e_j C_V) with the QHA layer's C_V"
-                     if f["check"] != "heat_capacity" else "the heat capacity handed over by the adapter is not the QHA layer's C_V(T,V)",
+                     if f["key"] is not None else ("the heat capacity handed over by the adapter is not the QHA layer's C_V(T,V)" if f["check"].startswith("heat_capacity")
+                                                   else f"{f['check']}: Calculator.{f['check'].split('_', 1)[1]} is not the qha calculator's own grid array"),
                 input={"adapter_files": files, "desc": jsonable_desc(desc)}, observed=f["observed"], expected=f["expected"],
                 site=f"C02:adapter:{f['check']}"))
     res.distribution["adapter_e2e_cases"] = done
+    res.distribution["adapter_e2e_refused_by_calculator"] = {k: REFUSED.count(k) for k in sorted(set(REFUSED))}
+    if done and len(REFUSED) == done:
+        res.notes.append("every end-to-end data set was refused by the Calculator (" + ", ".join(sorted(set(REFUSED))) + "); the adapter-object "
+                         "stream compares the adapter with qha directly on such data")
 
 
 def jsonable_desc(d):
     from harness.common import jsonable
     return jsonable(d)
+
+
+# --------------------------------------------------------------------------------------------- glue: qha_adapter.py / units.py
+# CODATA numbers typed in (never read from cij / pint / scipy).  pint 0.26 carries the 2022 adjustment, older releases the 2018 one:
+# the helpers must match ONE edition throughout at 1e-9.
+CODATA = {"2022": {"bohr": 5.29177210544e-11, "rydberg": 2.1798723611030e-18},
+          "2018": {"bohr": 5.29177210903e-11, "rydberg": 2.1798723611035e-18}}
+EV_J = 1.602176634e-19          # exact (SI 2019)
+N_A = 6.02214076e23             # exact
+RTOL_UNITS = 1e-9
+PRESSURE_HELPERS = ("_to_gpa", "_from_gpa")
+HELPERS = ["_to_gpa", "_from_gpa", "_to_ang3", "_from_ang3", "_to_ev", "_from_ev", "_from_gcm3", "_to_gcm3", "_to_kms"]
+GLUE_CHAINS = ([["calculator"], ["v_array"], ["t_array"], ["t_sample_array"], ["ntv"], ["v2p"], ["volume_base"], ["pressure_base"], ["nonexistent"]]
+               + [["volume_base", n] for n in ("v_array", "t_array", "t_sample_array", "gibbs_free_energies", "helmholtz_free_energies",
+                                               "enthalpies", "entropies", "pressures", "thermal_expansivities", "bulk_modulus",
+                                               "bulk_modulus_isothermal", "heat_capacity", "p_array")]
+               + [["pressure_base", n] for n in ("p_array", "t_array", "t_sample_array", "gibbs_free_energies", "helmholtz_free_energies",
+                                                 "enthalpies", "entropies", "volumes", "thermal_expansivities", "bulk_modulus",
+                                                 "bulk_modulus_isothermal", "heat_capacity", "v_array")])
+
+
+def _units_module():
+    """the MODULE cij/util/units.py (the package attribute `cij.util.units` is the pint registry it exports)"""
+    import importlib
+    return importlib.import_module("cij.util.units")
+
+
+def typed_factors(edition: str) -> Dict[str, float]:
+    """one source unit in target units, from the typed constants (own statement of what each helper is documented to convert)"""
+    a0, ry = CODATA[edition]["bohr"], CODATA[edition]["rydberg"]
+    gpa = ry / a0 ** 3 / 1e9
+    ang3 = (a0 * 1e10) ** 3
+    ev = ry / EV_J
+    gcm3 = 1.0 / (N_A * (a0 * 100.0) ** 3)
+    return {"_to_gpa": gpa, "_from_gpa": 1.0 / gpa, "_to_ang3": ang3, "_from_ang3": 1.0 / ang3, "_to_ev": ev, "_from_ev": 1.0 / ev,
+            "_to_gcm3": gcm3, "_from_gcm3": 1.0 / gcm3, "_to_kms": 1.0}
+
+
+def unit_values(edition: str) -> Dict[str, float]:
+    """SI value of one unit of each name (amount of substance counted in mol)"""
+    a0, ry = CODATA[edition]["bohr"], CODATA[edition]["rydberg"]
+    return {"bohr": a0, "angstrom": 1e-10, "cm": 1e-2, "km": 1e3, "m": 1.0, "g": 1e-3, "kg": 1.0, "s": 1.0, "K": 1.0, "mol": 1.0,
+            "particle": 1.0 / N_A, "rydberg": ry, "hartree": 2.0 * ry, "eV": EV_J, "J": 1.0, "GPa": 1e9, "Pa": 1.0}
+
+
+def mono_value(mono, vals) -> float:
+    out = 1.0
+    for u, e2 in mono:
+        out *= vals[u] ** (e2 / 2.0)
+    return out
+
+
+def helper_outputs(name: str):
+    """the real helper on 1.0, 0.0, a negative number and an array; and the two forms of convert_unit for the same units"""
+    U = _units_module()
+    f = getattr(U, name)
+    arr = numpy.array([0.5, -3.0, 2.0e3])
+    with numpy.errstate(all="ignore"):
+        return {"one": float(f(1.0)), "zero": f(0.0), "neg": float(f(-2.5)), "arr": numpy.asarray(f(arr), dtype=float), "arr_in": arr}
+
+
+def units_oracle(names=None) -> List[OracleFailure]:
+    """every helper against the typed CODATA factor (one edition throughout), value form incl. 0.0 and arrays"""
+    fails: List[OracleFailure] = []
+    U = _units_module()
+    names = list(names or HELPERS)
+    outs = {}
+    for n in names:
+        if not callable(getattr(U, n, None)):
+            fails.append(OracleFailure(what=f"cij.util.units.{n} is missing", input={"glue": "units", "helper": n}, observed=None,
+                                       expected="callable", site=f"C02:units:{n}"))
+            continue
+        try:
+            outs[n] = helper_outputs(n)
+        except Exception as e:
+            fails.append(OracleFailure(what=f"cij.util.units.{n} raises {type(e).__name__}", input={"glue": "units", "helper": n},
+                                       observed=repr(e)[:200], expected="a converted number", site=f"C02:units:{n}"))
+
+    def bad_for(ed):
+        tf = typed_factors(ed)
+        bad = []
+        for n, o in outs.items():
+            k = tf[n]
+            if isinstance(o["zero"], (int, float, numpy.floating)) and float(o["zero"]) == 0.0:
+                pass
+            else:
+                bad.append((n, "0.0", repr(o["zero"])[:80], 0.0)); continue
+            if not (abs(o["one"] / k - 1.0) <= RTOL_UNITS): bad.append((n, "1.0", o["one"], k)); continue
+            if not (abs(o["neg"] / (-2.5 * k) - 1.0) <= RTOL_UNITS): bad.append((n, "-2.5", o["neg"], -2.5 * k)); continue
+            if o["arr"].shape != o["arr_in"].shape or not family_close(o["arr"], o["arr_in"] * k, rtol=RTOL_UNITS)[0]:
+                bad.append((n, "array", o["arr"].tolist(), (o["arr_in"] * k).tolist()))
+        return bad
+    per = {ed: bad_for(ed) for ed in CODATA}
+    best = min(per, key=lambda ed: len(per[ed]))
+    for n, x, obs, exp in per[best]:
+        fails.append(OracleFailure(what=f"unit helper {n}({x}) differs from the CODATA-{best} factor at {RTOL_UNITS:g}",
+                                   input={"glue": "units", "helper": n}, observed=obs, expected=exp, site=f"C02:units:{n}"))
+    return fails
+
+
+def units_stream(ctx: Ctx, res: Result):
+    """units.py: oracle (typed CODATA) + correspondence of the translated unit expressions / convert_unit / dimension table"""
+    U = _units_module()
+    dist = res.distribution
+    fails = units_oracle()
+    res.evaluations += 4 * len(HELPERS)
+    # the pressure pair carries the moduli (and so the gap) to the reported GPa: a wrong factor there is a failing input of C02;
+    # the other helpers are not used by the statement — a wrong factor is reported as a disagreement with the typed table
+    res.oracle_failures.extend([f for f in fails if f.input.get("helper") in PRESSURE_HELPERS][:3])
+    for f in [f for f in fails if f.input.get("helper") not in PRESSURE_HELPERS][:4]:
+        res.disagreements.append(Disagreement(op="c02.helpers", input=f.input, impl=f.observed, model=f.expected, note=f.what))
+    dist["unit_helpers_vs_codata"] = len(HELPERS)
+    # the helpers the module defines are the ones the oracle knows (a new helper is not silently untested)
+    defined = sorted(n for n in vars(U) if (n.startswith("_to_") or n.startswith("_from_")) and callable(getattr(U, n)))
+    if defined != sorted(HELPERS):
+        res.disagreements.append(Disagreement(op="c02.helpers", input="names", impl=defined, model=sorted(HELPERS),
+                                              note="cij.util.units defines other helpers than the harness has typed factors for"))
+    # ---- translated monomials valued with the typed constants vs the real helper
+    ans = ctx.driver.ask([{"op": "c02.helpers"}])[0]
+    ok_ed = None
+    if not isinstance(ans, list):
+        res.disagreements.append(Disagreement(op="c02.helpers", input=None, impl=defined, model=ans, note="driver answer"))
+    else:
+        model_names = [h["name"] for h in ans]
+        if sorted(model_names) != defined:
+            res.disagreements.append(Disagreement(op="c02.helpers", input="names", impl=defined, model=model_names))
+        for ed in CODATA:
+            vals = unit_values(ed)
+            good = True
+            for h in ans:
+                if h["src"] is None or h["dst"] is None or not callable(getattr(U, h["name"], None)): good = False; break
+                k = mono_value(h["src"], vals) / mono_value(h["dst"], vals)
+                try:
+                    real = float(getattr(U, h["name"])(1.0))
+                except Exception:
+                    good = False; break
+                if not (abs(real / k - 1.0) <= RTOL_UNITS): good = False; break
+            if good: ok_ed = ed; break
+        if ok_ed is None:
+            vals = unit_values("2022")
+            rows = [(h["name"], None if h["src"] is None or h["dst"] is None else mono_value(h["src"], vals) / mono_value(h["dst"], vals)) for h in ans]
+            real = {}
+            for n in defined:
+                try: real[n] = float(getattr(U, n)(1.0))
+                except Exception as e: real[n] = type(e).__name__
+            res.disagreements.append(Disagreement(op="c02.helpers", input="factors", impl=real, model=rows,
+                                                  note="translated unit expression valued with typed CODATA constants != real helper(1.0)"))
+        else:
+            res.traces_validated += len(ans)
+        res.evaluations += len(ans)
+    dist["unit_helpers_translated_vs_real"] = 0 if not isinstance(ans, list) else len(ans)
+    dist["codata_edition_matched"] = ok_ed
+    # ---- convert_unit: value form, curried form, 0.0 — real pint units against the translated definition (units valued in SI)
+    vals = unit_values(ok_ed or "2022")
+    pairs = [("rydberg", "eV"), ("eV", "rydberg"), ("bohr", "angstrom"), ("GPa", "Pa"), ("cm", "km"), ("J", "rydberg")]
+    n_conv = 0
+    for a, b in pairs:
+        for v in (1.0, 0.0, -7.25, None):
+            probe = float(ctx.rng.uniform(0.5, 3.0))
+            op = {"op": "c02.convert", "from": enc(vals[a]), "to": enc(vals[b]), "probe": enc(probe)}
+            if v is not None: op["value"] = enc(v)
+            m = ctx.driver.ask([op])[0]
+            try:
+                r = U.convert_unit(getattr(U.units, a), getattr(U.units, b), v) if v is not None else U.convert_unit(getattr(U.units, a), getattr(U.units, b))
+                if callable(r): impl = ("function", float(r(probe)))
+                else: impl = ("value", float(r))
+            except Exception as e:
+                impl = ("error", type(e).__name__)
+            mm = (m.get("kind"), dec(m["x"]) if "x" in m else None) if isinstance(m, dict) else ("driver", m)
+            n_conv += 1
+            res.evaluations += 1
+            same = impl[0] == mm[0] and (impl[0] == "error" or (mm[1] is not None and abs(impl[1] - mm[1]) <= RTOL_UNITS * max(abs(mm[1]), 1e-300)))
+            if not same:
+                res.disagreements.append(Disagreement(op="c02.convert", input={"from": a, "to": b, "value": v, "probe": probe}, impl=impl, model=mm))
+            else:
+                res.traces_validated += 1
+    dist["convert_unit_calls"] = n_conv
+    # ---- dimension table of the model vs pint (contract of `unitDim`)
+    names = sorted(vals)
+    md = ctx.driver.ask([{"op": "c02.unitdims", "names": names}])[0]
+    order = ["[length]", "[mass]", "[time]", "[temperature]", "[substance]"]
+    n_dim = 0
+    for n in names:
+        try:
+            d = dict(getattr(U.units, n).dimensionality)
+        except Exception as e:
+            res.contract_failures.append(f"pint does not know the unit {n}: {type(e).__name__}"); continue
+        pd = [int(round(d.get(k, 0))) for k in order] if set(d) <= set(order) and all(float(x).is_integer() for x in d.values()) else None
+        n_dim += 1
+        if not isinstance(md, dict) or md.get(n) != pd:
+            res.disagreements.append(Disagreement(op="c02.unitdims", input=n, impl=pd, model=md.get(n) if isinstance(md, dict) else md,
+                                                  note="dimension table of CijModel/QhaGlue.lean vs pint's dimensionality"))
+    dist["unit_dimensions_vs_pint"] = n_dim
+
+
+# ---- read_input: the translated statements vs the real method, on lists of volumes
+def _fake_input(vols):
+    import types
+    V = [types.SimpleNamespace(volume=float(v), energy=-1.0 - 0.25 * i, q_points=[((0.0, 0.0, 0.0), [1.0 + i, 2.0, 3.5]), ((0.5, 0.0, 0.0), [4.0, 5.0 + i, 6.0])])
+         for i, v in enumerate(vols)]
+    return types.SimpleNamespace(nm=2, volumes=V, weights=[((0.0, 0.0, 0.0), 1.0), ((0.5, 0.0, 0.0), 3.0)])
+
+
+def real_read_input(vols) -> dict:
+    """QHACalculator.read_input on a duck-typed input: status and which of the five fields hold the file's values"""
+    import copy as _copy
+    from qha.settings import DEFAULT_SETTINGS
+    from cij.core.qha_adapter import QHACalculator
+    from harness import tvdata
+    s = _copy.copy(DEFAULT_SETTINGS); s.update(tvdata.CIJ_QHA_DEFAULTS); s.update({"NTV": 11})
+    inp = _fake_input(vols)
+    with tvdata.quiet():
+        c = QHACalculator(s)
+        try:
+            c.read_input(inp)
+        except Exception as e:
+            return {"status": type(e).__name__}
+    want = {"self._formula_unit_number": inp.nm, "self._volumes": [v.volume for v in inp.volumes],
+            "self._static_energies": [v.energy for v in inp.volumes],
+            "self._frequencies": [[m for _, m in v.q_points] for v in inp.volumes], "self._q_weights": [w for _, w in inp.weights]}
+    stored = []
+    for k, w in want.items():
+        got = getattr(c, k.split(".", 1)[1], None)
+        if got is None: continue
+        try:
+            same = numpy.array_equal(numpy.asarray(got, dtype=float), numpy.asarray(w, dtype=float), equal_nan=True) and numpy.asarray(got).shape == numpy.asarray(w).shape
+        except Exception:
+            same = False
+        stored.append(k if same else k + " (altered)")
+    return {"status": "ok", "stored": stored}
+
+
+def volume_lists(rng, n):
+    out = [[], [55.0], [3.0, 2.0, 1.0], [3.0, 3.0, 1.0], [1.0, 2.0], [3.0, float("nan"), 1.0], [2.0, 2.0], [2.0, 2.0000000000000004]]
+    while len(out) < n:
+        k = int(rng.integers(2, 13))
+        v = numpy.sort(rng.uniform(40.0, 400.0, size=k))[::-1].copy()
+        mode = int(rng.integers(0, 6))
+        if mode == 1: v = v[::-1].copy()                                           # increasing
+        elif mode == 2: i = int(rng.integers(0, k - 1)); v[i], v[i + 1] = v[i + 1], v[i]    # one adjacent pair exchanged
+        elif mode == 3: v = v[rng.permutation(k)]                                  # shuffled
+        elif mode == 4: i = int(rng.integers(0, k - 1)); v[i + 1] = v[i]              # a repeated volume (not an increase)
+        elif mode == 5 and k > 2: v = numpy.roll(v, 1)                             # largest volume last -> first
+        out.append([float(x) for x in v])
+    return out
+
+
+def volcheck_stream(ctx: Ctx, res: Result, n: int):
+    dist = res.distribution
+    lists = volume_lists(ctx.rng, n)
+    ans = ctx.driver.ask([{"op": "c02.volcheck", "volumes": enc(numpy.array(v, dtype=float))} for v in lists])
+    acc = rej = 0
+    for v, m in zip(lists, ans):
+        impl = real_read_input(v)
+        res.evaluations += 1
+        mm = {"status": m.get("status"), **({"stored": m.get("stored")} if m.get("status") == "ok" else {})} if isinstance(m, dict) else {"status": repr(m)}
+        if impl != mm:
+            res.disagreements.append(Disagreement(op="c02.volcheck", input={"volumes": jsonable_desc(v)}, impl=impl, model=mm))
+        else:
+            res.traces_validated += 1
+        if impl["status"] == "ok": acc += 1
+        else: rej += 1
+    dist["read_input_volume_lists"] = {"accepted": acc, "rejected": rej}
+
+
+# ---- the adapter's objects on a real data set
+def qha_direct_ext(files) -> dict:
+    """the qha package on the phonon file itself (own settings merge, no cij code): the grids, the (T,V) fields, and qha's own unit
+    twins of the fields cij reads"""
+    import os, shutil, tempfile, yaml
+    import qha.calculator
+    from qha.settings import DEFAULT_SETTINGS
+    from harness import tvdata
+    st = yaml.safe_load(files["settings.yaml"])
+    s = dict(DEFAULT_SETTINGS); s.update(tvdata.CIJ_QHA_DEFAULTS); s.update((st.get("qha") or {}).get("settings") or {})
+    name = (st.get("qha") or {}).get("input", "input01")
+    d = tempfile.mkdtemp(prefix="qhadirect_")
+    try:
+        path = os.path.join(d, os.path.basename(name))
+        with open(path, "w") as fp: fp.write(files[name])
+        s["input"] = path
+        with tvdata.quiet():
+            c = qha.calculator.Calculator(s)
+            c.read_input(); c.refine_grid()
+            return {k: numpy.array(getattr(c, k)) for k in
+                    ("finer_volumes_bohr3", "finer_volumes_ang3", "temperature_array", "temperature_sample_array", "p_tv_au", "p_tv_gpa",
+                     "cv_tv_au", "f_tv_ry", "f_tv_ev", "desired_pressures", "desired_pressures_gpa")} | {"NTV": int(s["NTV"])}
+    finally:
+        shutil.rmtree(d, ignore_errors=True)
+
+
+def build_adapter(files):
+    """QHACalculatorAdapter exactly as `Calculator._load` makes it (configuration and reader of cij, then the adapter)"""
+    import os, shutil, tempfile
+    import cij.io
+    from cij.core.qha_adapter import QHACalculatorAdapter
+    from harness import tvdata
+    d = tempfile.mkdtemp(prefix="cijadapter_")
+    try:
+        for n, text in files.items():
+            with open(os.path.join(d, n), "w") as fp: fp.write(text)
+        with tvdata.quiet():
+            config = cij.io.apply_default_config(cij.io.read_config(os.path.join(d, "settings.yaml")))
+            qha_input = cij.io.traditional.read_energy(os.path.join(d, config["qha"]["input"]))
+            return QHACalculatorAdapter(config["qha"]["settings"], qha_input)
+    finally:
+        shutil.rmtree(d, ignore_errors=True)
+
+
+def adapter_objects_oracle(files, qd=None, adapter=None) -> List[dict]:
+    """what the adapter hands over, against qha run directly.  The quantities the statement of C02 uses — the volume grid, the
+    temperature grid, C_V(T,V), the grid size — by VALUE: a difference is an oracle failure.  Tagged `identity` (reported as a
+    correspondence disagreement with the translated object graph / tables, not as a violation): object identity across reads, one
+    shared qha calculator, and the fields C02 does not use (sample temperatures, pressures, free energy, pressure grid, `v2p`)."""
+    from harness import tvdata
+    fails: List[dict] = []
+    qd = qd if qd is not None else qha_direct_ext(files)
+    try:
+        ad = adapter if adapter is not None else build_adapter(files)
+    except Exception as e:
+        return [{"check": "construct", "observed": f"{type(e).__name__}: {e}"[:200], "expected": "an adapter (qha itself accepts the data set)"}]
+    def cmp(check, got, want, exact=True, model_only=False):
+        try:
+            g = numpy.asarray(got, dtype=float); w = numpy.asarray(want, dtype=float)
+            ok = g.shape == w.shape and (numpy.array_equal(g, w, equal_nan=True) if exact else family_close(g, w, rtol=1e-12)[0])
+        except Exception as e:
+            g, w, ok = repr(e), numpy.asarray(want), False
+        if not ok:
+            fails.append({"check": check, "observed": [list(numpy.shape(got))] + numpy.ravel(numpy.asarray(got, dtype=object))[:4].tolist(),
+                          "expected": [list(numpy.shape(want))] + numpy.ravel(numpy.asarray(want))[:4].tolist(), **({"identity": True} if model_only else {})})
+    with tvdata.quiet():
+        def get(f):
+            try: return f()
+            except Exception as e: return f"{type(e).__name__}: {e}"[:120]
+        cmp("v_array", get(lambda: ad.v_array), qd["finer_volumes_bohr3"])
+        cmp("volume_base.v_array", get(lambda: ad.volume_base.v_array), qd["finer_volumes_bohr3"])
+        cmp("t_array", get(lambda: ad.t_array), qd["temperature_array"])
+        cmp("volume_base.t_array", get(lambda: ad.volume_base.t_array), qd["temperature_array"])
+        cmp("t_sample_array", get(lambda: ad.t_sample_array), qd["temperature_sample_array"], model_only=True)
+        cmp("heat_capacity", get(lambda: ad.volume_base.heat_capacity), qd["cv_tv_au"], exact=False)
+        cmp("pressures", get(lambda: ad.volume_base.pressures), qd["p_tv_au"], exact=False, model_only=True)
+        cmp("helmholtz_free_energies", get(lambda: ad.volume_base.helmholtz_free_energies), qd["f_tv_ry"], exact=False, model_only=True)
+        cmp("pressure_base.p_array", get(lambda: ad.pressure_base.p_array), qd["desired_pressures"], exact=False, model_only=True)
+        ntv = get(lambda: ad.ntv)
+        if ntv != len(qd["finer_volumes_bohr3"]) or ntv != qd["NTV"]:
+            fails.append({"check": "ntv", "observed": ntv if isinstance(ntv, (int, str)) else repr(ntv), "expected": qd["NTV"]})
+        for nm in ("volume_base", "pressure_base"):
+            a, b = get(lambda: getattr(ad, nm)), get(lambda: getattr(ad, nm))
+            if isinstance(a, str):
+                fails.append({"check": nm, "observed": a, "expected": "an interface object"})
+            elif a is not b:
+                fails.append({"check": nm + " identical across reads", "identity": True, "observed": [repr(a)[:60], repr(b)[:60]], "expected": "the same object"})
+            elif getattr(a, "calculator", None) is not ad.calculator:
+                fails.append({"check": nm + ".calculator is the adapter's calculator", "identity": True,
+                              "observed": repr(getattr(a, "calculator", None))[:60], "expected": repr(ad.calculator)[:60]})
+        for nm in ("heat_capacity", "pressures", "v_array"):
+            a, b = get(lambda: getattr(ad.volume_base, nm)), get(lambda: getattr(ad.volume_base, nm))
+            if a is not b:
+                fails.append({"check": f"volume_base.{nm} identical across reads", "identity": True, "observed": "two different objects", "expected": "the same array"})
+        r = get(lambda: ad.v2p())
+        if r is not None:
+            fails.append({"check": "v2p() is empty", "identity": True, "observed": repr(r)[:80], "expected": None})
+    return fails
+
+
+def chain_correspondence(ctx: Ctx, res: Result, ad) -> int:
+    """`c02.chain`: the object-graph reading of the translated source against the running objects.  The model answers with the class
+    of the root object and an attribute path from it (or null: no value — an exception or a bound method); the real chain of reads
+    must return THAT object (identity; `len` by value)."""
+    from harness import tvdata
+    ans = ctx.driver.ask([{"op": "c02.chain", "attrs": ch} for ch in GLUE_CHAINS])
+    qname = type(ad.calculator).__name__
+    n = 0
+    for ch, m in zip(GLUE_CHAINS, ans):
+        with tvdata.quiet():
+            try:
+                v = ad
+                for a in ch: v = getattr(v, a)
+                real, err = v, None
+            except Exception as e:
+                real, err = None, type(e).__name__
+        n += 1
+        res.evaluations += 1
+        if m is None:
+            ok = err is not None or callable(real)
+            desc = ("error:" + err) if err else ("callable" if callable(real) else "value")
+        elif not isinstance(m, dict) or "root" not in m:
+            ok, desc = False, "value" if err is None else "error:" + err
+        elif err is not None:
+            # the model takes every attribute of the external qha calculator as given; a name the installed qha class does not have
+            # (checked on the third-party class, not on cij's subclass) raises AttributeError in the real chain — consistent, recorded
+            import qha.calculator
+            lacks = m["root"] == qname and len(m["path"]) >= 1 and not hasattr(qha.calculator.Calculator, m["path"][0])
+            ok, desc = (err == "AttributeError" and lacks), "error:" + err
+            if ok: res.distribution.setdefault("chain_reads_of_attributes_qha_lacks", []).append(".".join(ch) + " -> " + m["path"][0])
+        elif m["root"] == qname:
+            desc = "value"
+            with tvdata.quiet():
+                try:
+                    w = ad.calculator
+                    for a in m["path"]:
+                        w = len(w) if a == "__len__" else getattr(w, a)
+                    ok = (w is real) or (isinstance(w, int) and isinstance(real, int) and w == real)
+                except Exception as e:
+                    ok, desc = False, "model path fails on the real object: " + type(e).__name__
+        else:
+            desc = "instance of " + type(real).__name__
+            ok = m["path"] == [] and type(real).__name__ == m["root"] and getattr(real, "calculator", None) is ad.calculator
+        if not ok:
+            res.disagreements.append(Disagreement(op="c02.chain", input=ch, impl=desc, model=m,
+                                                  note="which attribute of which object the chain of reads on the adapter returns"))
+        else:
+            res.traces_validated += 1
+    return n
+
+
+def qha_unit_twins(qd, ed) -> List[str]:
+    """contract of `qhaFieldUnit` (units qha holds its fields in): its own `_gpa` / `_ang3` / `_ev` twins with the typed factors"""
+    tf = typed_factors(ed)
+    out = []
+    for a, b, k in (("p_tv_au", "p_tv_gpa", tf["_to_gpa"]), ("finer_volumes_bohr3", "finer_volumes_ang3", tf["_to_ang3"]),
+                    ("f_tv_ry", "f_tv_ev", tf["_to_ev"]), ("desired_pressures", "desired_pressures_gpa", tf["_to_gpa"])):
+        if not family_close(qd[a] * k, qd[b], rtol=1e-8)[0]:
+            out.append(f"qha {b} is not {a} x {k!r} (CODATA-{ed})")
+    return out
+
+
+def glue_adapter_cases(ctx: Ctx, res: Result, n: int):
+    from harness import tvdata
+    from harness.common import make_rng
+    dist = res.distribution
+    done = chains = 0
+    twins_bad: List[str] = []
+    for i in range(n):
+        rng = make_rng(ctx.seed, f"C02/glue-adapter/{i}")
+        nt = int(rng.integers(2, 6))
+        ds, desc = tvdata.draw_case(rng, small=True, force={"NT": nt})
+        files = tvdata.case_files(ds)
+        files = tvdata.with_settings(files, {"qha": {"settings": {"DT_SAMPLE": 2.0 * float(desc["DT"])}}})
+        qd = qha_direct_ext(files)
+        try:
+            ad = build_adapter(files)
+        except Exception as e:
+            ad = None
+            res.oracle_failures.append(OracleFailure(what=f"the adapter cannot be built on a data set the qha package accepts: {type(e).__name__}",
+                                                     input={"adapter_files": files, "objects": True, "desc": jsonable_desc(desc)}, observed=repr(e)[:200],
+                                                     expected="QHACalculatorAdapter", site="C02:adapter:construct"))
+        if ad is not None:
+            fs_all = adapter_objects_oracle(files, qd=qd, adapter=ad)
+            for f in [f for f in fs_all if f.get("identity")][:3]:
+                res.disagreements.append(Disagreement(op="c02.chain", input={"check": f["check"], "desc": jsonable_desc(desc)}, impl=f["observed"], model=f["expected"],
+                                                      note="object graph of the translated adapter: one object per adapter, made at construction"))
+            fs = [f for f in fs_all if not f.get("identity")]
+            for f in fs[:3]:
+                res.oracle_failures.append(OracleFailure(
+                    what=f"the adapter's {f['check']} is not what the QHA layer computes on its own (T,V) grid",
+                    input={"adapter_files": files, "objects": True, "desc": jsonable_desc(desc)}, observed=f["observed"], expected=f["expected"],
+                    site=f"C02:adapter:{f['check'].split()[0]}"))
+            if not fs_all: res.traces_validated += 12
+            if i == 0:
+                chains += chain_correspondence(ctx, res, ad)
+        res.evaluations += 12
+        done += 1
+        twins_bad += qha_unit_twins(qd, dist.get("codata_edition_matched") or "2022")
+    for t in sorted(set(twins_bad)):
+        res.contract_failures.append(t)
+    dist["glue_adapter_cases"] = done
+    dist["glue_chain_reads"] = chains
 
 
 def run(ctx: Ctx) -> Result:
@@ -240,9 +752,16 @@ def run(ctx: Ctx) -> Result:
                                 "c44_isothermal": out["44"][0].tolist(), "c44_adiabatic": out["44"][1].tolist(),
                                 "c11_adia_minus_iso": (out["11"][1] - out["11"][0]).tolist()})
     adapter_cases(ctx, res, 8 if thorough else 3)
-    res.distinct_nontrivial += dist["tasklist_cases"] + dist.get("adapter_e2e_cases", 0)
+    # glue of qha_adapter.py / units.py
+    units_stream(ctx, res)
+    volcheck_stream(ctx, res, 120 if thorough else 40)
+    glue_adapter_cases(ctx, res, 6 if thorough else 2)
+    res.distinct_nontrivial += dist["tasklist_cases"] + dist.get("adapter_e2e_cases", 0) + dist.get("glue_adapter_cases", 0)
     res.rule += ("; end-to-end adapter cases = one synthetic data set each through the real Calculator, gap compared with the formula "
                  "built from the qha package's own C_V(T,V), the harness' per-mode fit and CODATA constants"
+                 "; glue adapter cases = one synthetic data set each (DT_SAMPLE = 2 DT) on which the real QHACalculatorAdapter is compared "
+                 "field by field with the qha package run directly; unit helpers, convert_unit calls, volume lists and chain reads are "
+                 "counted in evaluations only"
                  "; C02 additionally: task-list cases = one analytic spectrum each pushed through the real "
                  "PhononContributionTaskList for all 21 keys (15 shear keys compared exactly, 6 non-shear keys against the "
                  "mpmath mixed derivative)")
@@ -267,9 +786,15 @@ def search(ctx: Ctx, res: Result) -> List[OracleFailure]:
 
 
 def replay(ctx: Ctx, payload) -> List[OracleFailure]:
+    if payload.get("glue") == "units":
+        return [f for f in units_oracle([payload["helper"]]) if payload["helper"] in PRESSURE_HELPERS]
+    if "adapter_files" in payload and payload.get("objects"):
+        return [OracleFailure(what=f"the adapter's {f['check']} is not what the QHA layer computes on its own (T,V) grid", input=payload,
+                              observed=f["observed"], expected=f["expected"], site=f"C02:adapter:{f['check'].split()[0]}")
+                for f in adapter_objects_oracle(payload["adapter_files"]) if not f.get("identity")]
     if "adapter_files" in payload:
         return [OracleFailure(what=f"end to end: {f['check']} of c{f['key']}", input=payload, observed=f["observed"], expected=f["expected"],
-                              site=f"C02:adapter:{f['check']}") for f in adapter_oracle(payload["adapter_files"])]
+                              site=f"C02:adapter:{f['check']}") for f in adapter_oracle(payload["adapter_files"]) if not f.get("identity")]
     if payload.get("tasklist"):
         par = payload["par"]
         d = c01.oracle_derivs(par)
